@@ -30,10 +30,20 @@ Print Assumptions C19_comment_every_line.
 
 (* ... and the comment lines carry exactly the lines of the message, in order *)
 Theorem C19_comment_lines_content : forall msg,
-  plines (comment_lines msg) = map (fun l => 35 :: 32 :: l ++ [10]) (lines_or_empty msg)
-  /\ Forall nobreak (lines_or_empty msg).
+  plines (comment_lines msg) = map (fun l => 35 :: 32 :: l ++ [10]) (lines_or_empty (escape_nul msg))
+  /\ Forall nobreak (lines_or_empty (escape_nul msg)).
 Proof. exact comment_lines_content. Qed.
 Print Assumptions C19_comment_lines_content.
+
+(* D23.  Every line of the debug text is a comment line AS PYTHON READS LINES: "# ", then characters
+   none of which is NUL, LF, CR or any other line boundary of str.splitlines, then the LF that ends
+   it; and the whole text contains no NUL (Python 3.12 refuses a NUL anywhere in source text, also
+   in a comment; comment_lines writes it as backslash-zero). *)
+Theorem C19_comment_lines_clean : forall msg,
+  Forall (fun l => exists body, l = 35 :: 32 :: body ++ [10] /\ Forall comment_char body) (plines (comment_lines msg))
+  /\ Forall (fun c => c <> 0) (comment_lines msg).
+Proof. exact comment_lines_clean. Qed.
+Print Assumptions C19_comment_lines_clean.
 
 (* removing the comment lines of a commented message leaves nothing *)
 Theorem C19_strip_comment_lines : forall msg, strip (comment_lines msg) = [].
